@@ -26,16 +26,27 @@ ASSUMPTIONS = ['subunit (forces --buffer) is not installed and not covered',
                '"at most once" is required)']
 FLOORS = {'tokens_hidden_checked': 1500, 'tokens_shown_checked': 1500,
           'probes_between_tests': 3000, 'probes_in_tests_buffered': 2000,
-          'probes_unbuffered': 500, 'multi_event_tests': 200}
+          'probes_unbuffered': 500, 'multi_event_tests': 200,
+          'class_fixture_events': 300}
 BATCH_TIMEOUT = 300
 
 KINDS = ['pass', 'fail', 'error', 'setup_error', 'teardown_error',
          'cleanup_error', 'body_teardown_error', 'fail_teardown_error',
          'skip_deco', 'skip_setup', 'skip_body', 'xfail', 'uxsuccess',
          'subtests']
-HIDDEN = {'pass', 'skip_deco', 'skip_setup', 'skip_body', 'xfail'}
+# Elements that are not single test cases but a whole class run as a unit
+# through the stdlib suite machinery (vworld_rt.UnitEntry), so that its class
+# fixtures run: the fixture outcomes reach the result as addSkip / addError
+# *without* startTest / stopTest around them.
+#   u_skip   setUpClass raises SkipTest (the test inside never runs)
+#   u_error  setUpClass raises (the test inside never runs)
+#   u_tdfail the test inside passes and writes, tearDownClass raises
+#   u_fail   fixtures fine, the test inside fails and writes
+UNIT_KINDS = ['u_skip', 'u_error', 'u_tdfail', 'u_fail']
+HIDDEN = {'pass', 'skip_deco', 'skip_setup', 'skip_body', 'xfail',
+          'u_tdfail'}
 SHOWN = {'fail', 'error', 'setup_error', 'teardown_error', 'cleanup_error',
-         'body_teardown_error', 'fail_teardown_error', 'subtests'}
+         'body_teardown_error', 'fail_teardown_error', 'subtests', 'u_fail'}
 
 
 def EXHAUSTIVE(tier):
@@ -55,6 +66,13 @@ def cases(tier, seed):
         for _ in range(8000):
             seqs.append(tuple(rng.choice(KINDS)
                               for _k in range(rng.randint(4, 6))))
+    # sequences with 1-2 class-as-a-unit elements among ordinary tests
+    for _ in range(700 if tier == 'quick' else 5000):
+        n = rng.randint(1, 4)
+        seq = [rng.choice(KINDS) for _k in range(n)]
+        for _k in range(rng.randint(1, 2)):
+            seq.insert(rng.randint(0, len(seq)), rng.choice(UNIT_KINDS))
+        seqs.append(tuple(seq))
     out = []
     for i, seq in enumerate(seqs):
         out.append({'idx': i, 'seq': list(seq),
@@ -67,7 +85,7 @@ def cases(tier, seed):
 
 def reachable_phases(kind):
     """Phases of a test in which an action certainly runs."""
-    if kind == 'skip_deco':
+    if kind in ('skip_deco', 'u_skip', 'u_error'):
         return []
     if kind in ('setup_error', 'skip_setup'):
         return ['setUp', 'cleanup']
@@ -89,8 +107,12 @@ def run_case(case):
     tests = []
     tokens = {}        # token -> (test index, stream)
     swaps = []
+    nodes = []         # suite children in run order
+    cls_of = {}        # test index -> class name
     for i, kind in enumerate(case['seq']):
         t = {'name': 'test_%02d' % i, 'kind': kind, 'actions': []}
+        if kind in UNIT_KINDS:
+            t['kind'] = 'fail' if kind == 'u_fail' else 'pass'
         if kind == 'subtests':
             t['subs'] = rng.choice([['F'], ['P', 'E'], ['F', 'E'],
                                     ['P', 'F', 'P'], ['S', 'F'], ['F', 'S'],
@@ -127,7 +149,23 @@ def run_case(case):
                                  'stream': rng.choice(['stdout', 'stderr'])})
             swaps.append(i)
         tests.append(t)
-    spec = gen.simple_world(prefix, layers, {'Top': tests})
+        if kind in UNIT_KINDS:
+            fx = {'u_skip': {'setUpClass': 'skip'},
+                  'u_error': {'setUpClass': 'raise:ValueError'},
+                  'u_tdfail': {'tearDownClass': 'raise:KeyError'},
+                  'u_fail': {'setUpClass': 'ok', 'tearDownClass': 'ok'}}[kind]
+            nodes.append({'t': 'unit', 'name': 'Unit%02d' % i, 'tests': [t],
+                          'layer': 'Top', 'fixture': fx})
+        elif nodes and nodes[-1]['t'] == 'class':
+            nodes[-1]['tests'].append(t)
+        else:
+            name = 'TestTop' if not any(n['t'] == 'class' for n in nodes) \
+                else 'TestTop%02d' % i
+            nodes.append({'t': 'class', 'name': name, 'tests': [t],
+                          'layer': 'Top'})
+        cls_of[i] = nodes[-1]['name']
+    spec = gen.simple_world(prefix, layers, {'Top': []})
+    spec['modules'][0]['suite']['ch'] = nodes
     opts = {'verbose': case['verbose']}
     if case['buffer']:
         opts['buffer'] = True
@@ -195,7 +233,7 @@ def run_case(case):
         # positions of each test's first header / first token
         first_pos = {}
         for i, kind in enumerate(case['seq']):
-            tid = '%s.TestTop.test_%02d' % (modname, i)
+            tid = '%s.%s.test_%02d' % (modname, cls_of[i], i)
             pat = re.compile(r'(Error|Failure) in test %s' % re.escape(
                 vworld.test_str(tid)))
             m = pat.search(text)
@@ -261,6 +299,9 @@ def run_case(case):
         sig = [case['seq'], sorted((v[0], v[1], v[2], v[3])
                                    for v in tokens.values()), opts]
     C('stream_swapping_tests', len(swaps))
+    C('class_fixture_events', sum(
+        1 for e in w.events if e['k'].startswith('class.')))
+    C('unit_elements', sum(1 for k in case['seq'] if k in UNIT_KINDS))
     C('runs_through_xml_wrapper', 1 if xml else 0)
     return {'viol': viol, 'evals': 1, 'sig': sig, 'counters': counters,
             'sample': {'seq': case['seq'], 'opts': opts,
